@@ -147,7 +147,7 @@ Definition mcase_signature (c : mcase) : N * N * N * N * N :=
 (* controller cases                                                                                  *)
 (* ------------------------------------------------------------------------------------------------ *)
 Inductive cstep :=
-| CAsk (q : question) (bmq bmr : list N)
+| CAsk (q : question)
        (script : list (N * list up_reply))      (* per source code (0xFD as-is, i upstream): replies by query number *)
        (impl_out : N) (impl_ans : list rr)      (* 0 + answer section, or 1000+class *)
        (impl_asked : list N)                    (* source codes of the upstream queries, in order *)
@@ -155,6 +155,15 @@ Inductive cstep :=
 | CReload (cfg : config).                       (* new rules, same upstreams, cache kept *)
 
 Record ccase := { cc_cfg : config; cc_steps : list cstep }.
+
+(* the bitmap a correct domain matcher returns (C11 interface, as a function): bit i = some set registered under i holds.
+   The controller harness cannot reach the matchers' bitmaps (unexported fields of another package). *)
+Definition ideal_bm (b : builder) (q : question) : list N :=
+  map (fun w => fold_left (fun acc ds =>
+                   if (ds_index ds / 32 =? w)
+                      && existsb (fun s => domain_holds (ds_key ds) s (norm_name (q_name q)) (q_regex_hits q)) (ds_domains ds)
+                   then N.lor acc (N.shiftl 1 (ds_index ds mod 32)) else acc) (b_domsets b) 0)
+      (map N.of_nat (seq 0 32)).
 
 Definition answers_of (script : list (N * list up_reply)) : answers :=
   fun s k => match find (fun e => fst e =? src_code s) script with
@@ -181,11 +190,13 @@ Fixpoint check_steps (cfg : config) (d : res dns) (mc sc : cache) (steps : list 
   match steps with
   | [] => []
   | CReload cfg' :: rest => check_steps cfg' (dns_new cfg') mc sc rest (n + 1)
-  | CAsk q bmq bmr script iout ians iasked icache :: rest =>
+  | CAsk q script iout ians iasked icache :: rest =>
     match d with
     | Err _ => [(n, 6)]
     | Ok dd =>
       let a := answers_of script in
+      let bmq := ideal_bm (d_req dd) q in
+      let bmr := ideal_bm (d_resp dd) q in
       let '(mr, ml, mc') := handle 10 dd bmq bmr mc q a in
       let '(so, sl, sc') := answer_question (N.to_nat MaxDnsLookupDepth) cfg sc q a in
       let asked_m := map src_code ml in
@@ -213,7 +224,7 @@ Fixpoint csig_steps (cfg : config) (sc : cache) (steps : list cstep) (acc : N * 
   match steps with
   | [] => acc
   | CReload cfg' :: rest => csig_steps cfg' sc rest acc
-  | CAsk q _ _ script _ _ _ _ :: rest =>
+  | CAsk q script _ _ _ _ :: rest =>
     let '(so, sl, sc') := answer_question (N.to_nat MaxDnsLookupDepth) cfg sc q (answers_of script) in
     let '(a, b, c1, c2, c3, dd) := acc in
     let rejected := match request_route cfg q with Some QReject => true | _ => false end in
